@@ -46,6 +46,10 @@ inductive Cb where
 structure Fut where
   st : FutSt := .pending
   cbs : List Cb := []
+  /-- `cancel()` is refused (returns False) although the future is pending: asyncio.gather's outer
+      future once all children are done but its own completion is still queued, or any Future
+      subclass overriding `cancel`.  The environment may flip this at any time. -/
+  noCancel : Bool := false
   deriving DecidableEq, Repr
 
 /-- What a ready-queue handle calls. -/
@@ -97,6 +101,7 @@ inductive Event where
   | setResult (f : FutId)
   | setExc (f : FutId)
   | cancelFut (f : FutId)
+  | setNoCancel (f : FutId) (b : Bool)  -- the future starts / stops refusing cancel()
   | addCb (f : FutId) (k : Nat)
   | cancelTask (t : TaskId)
   | callSoonOther (t : TaskId)          -- loop.call_soon(task.cancel)
@@ -153,7 +158,7 @@ def popLast (p : Handle → Bool) : List Handle → Option (Handle × List Handl
 def completeFut (s : State) (f : FutId) (st : FutSt) : State :=
   if (s.futs f).st = .pending then
     { s with ready := s.ready ++ (s.futs f).cbs.map (toHandle f),
-             futs := fun i => if i = f then { st := st, cbs := [] } else s.futs i }
+             futs := fun i => if i = f then { (s.futs f) with st := st, cbs := [] } else s.futs i }
   else s
 
 /-- Task.cancel() -/
@@ -162,7 +167,8 @@ def cancelTask (s : State) (t : TaskId) : State :=
   if T.done then s else
   match T.futWaiter with
   | some f =>
-    if (s.futs f).st = .pending then completeFut s f .cancelled
+    -- `if self._fut_waiter.cancel(): return True`  (a pending future may refuse)
+    if (s.futs f).st = .pending ∧ (s.futs f).noCancel = false then completeFut s f .cancelled
     else setTask s t { T with mustCancel := true }
   | none => setTask s t { T with mustCancel := true }
 
@@ -206,6 +212,8 @@ def taskThrow (s0 : State) (t : TaskId) (cd : Bool) : State × Out :=
   let id := s0.nexc
   let s := { s0 with nexc := s0.nexc + 1 }
   if T.done then (s, .refused) else
+  -- a cancellation request can be pending on a blocked task too (its future refused cancel())
+  if T.mustCancel then (s, .refused) else
   match blockedOn s0 T with
   | some f =>
     -- fut_waiter.remove_done_callback(task.__wakeup)
@@ -234,8 +242,8 @@ def endStep (s : State) (t : TaskId) (a : Act) : State :=
     if (s.futs f).st = .pending then
       -- result.add_done_callback(self.__wakeup); self._fut_waiter = result
       let s1 := setFut s f { (s.futs f) with cbs := (s.futs f).cbs ++ [.wake t] }
-      if T.mustCancel then
-        -- if self._fut_waiter.cancel(): self._must_cancel = False
+      if T.mustCancel = true ∧ (s.futs f).noCancel = false then
+        -- if self._fut_waiter.cancel(): self._must_cancel = False   (refused: flag stays)
         let s2 := setTask s1 t { T with futWaiter := some f, mustCancel := false }
         { completeFut s2 f .cancelled with ctx := .idle }
       else
@@ -268,7 +276,10 @@ def step (s : State) : Event → State × Out
   | .newFut => ({ s with nf := s.nf + 1 }, .ok)
   | .setResult f => if (s.futs f).st = .pending then (completeFut s f .result, .ok) else (s, .noop)
   | .setExc f => if (s.futs f).st = .pending then (completeFut s f .exc, .ok) else (s, .noop)
-  | .cancelFut f => if (s.futs f).st = .pending then (completeFut s f .cancelled, .ok) else (s, .noop)
+  | .cancelFut f =>
+    if (s.futs f).st = .pending ∧ (s.futs f).noCancel = false then (completeFut s f .cancelled, .ok)
+    else (s, .noop)
+  | .setNoCancel f b => (setFut s f { (s.futs f) with noCancel := b }, .ok)
   | .addCb f k =>
     if (s.futs f).st = .pending then
       (setFut s f { (s.futs f) with cbs := (s.futs f).cbs ++ [.other k] }, .ok)
